@@ -501,6 +501,7 @@ func checkC18(c *Ctx, r *Report) {
 	nf := checkSharedStores(c, r, "", 60)
 	checkHintMapsReadOnly(c, r)
 	checkNoSharedTransformers(c, r)
+	checkFreshResults(c, r, "")
 	checkMatrixCache(c, r) // binarizers and bitmaps made by Crop / Rotate / CreateBinarizer own their buffers (same obligations as under C17)
 	var roots []*ssa.Function
 	roots = append(roots, nf.entryMethods("", "Reader", "Decode")...)
@@ -753,5 +754,88 @@ func checkNoSharedTransformers(c *Ctx, r *Report) {
 			s := reach(v.Type(), map[types.Type]bool{}, key)
 			r.Check(s == "", "W-EXTSTATE", key, c.pos(v.Pos()), s+": one object shared by every reader; concurrent decodes race inside it")
 		}
+	}
+}
+
+// W-FRESHRESULT: functions that hand out a new container do not hand out (an alias of) what they were given
+type freshSpec struct{ rel, fn, why string }
+
+var freshResultSpecs = []freshSpec{
+	{"datamatrix/encoder", "ErrorCorrection_EncodeECC200", "the interleaved codewords are a buffer of their own: appending the check words to the caller's slice writes into whatever else shares its backing array (the next message of a batch)"},
+	{"qrcode", "QRCodeReader.extractPureBits", "the decoder un-masks and mirrors the matrix it is given in place: handing it the caller's own image changes the black matrix cached in the caller's bitmap"},
+	{"datamatrix", "extractPureBits", "as for QR: the module matrix is a new one, never the image itself"},
+}
+
+func checkFreshResults(c *Ctx, r *Report, only string) {
+	r.Rule("W-FRESHRESULT", "the listed functions return storage of their own: walking back from every returned first result through slicing, append (its first argument), conversions and phi nodes never reaches a parameter or the receiver - ErrorCorrection_EncodeECC200 (the interleaved codewords), the pure-barcode extractors of the QR and Data Matrix readers (the module matrix the decoder then changes in place)", 1)
+	for _, sp := range freshResultSpecs {
+		if only != "" && !strings.HasPrefix(sp.rel, only) {
+			continue
+		}
+		f := c.ssaFunc(sp.rel, sp.fn)
+		key := sp.rel + "." + sp.fn
+		if f == nil {
+			r.AnchorLost("W-FRESHRESULT", key, "function not found")
+			continue
+		}
+		r.Analysed(key)
+		bad := ""
+		seen := map[ssa.Value]bool{}
+		var from func(v ssa.Value) string
+		from = func(v ssa.Value) string {
+			if seen[v] {
+				return ""
+			}
+			seen[v] = true
+			switch x := v.(type) {
+			case *ssa.Parameter:
+				return x.Name()
+			case *ssa.Slice:
+				return from(x.X)
+			case *ssa.ChangeType:
+				return from(x.X)
+			case *ssa.Convert:
+				return from(x.X)
+			case *ssa.MakeInterface:
+				return from(x.X)
+			case *ssa.Phi:
+				for _, e := range x.Edges {
+					if s := from(e); s != "" {
+						return s
+					}
+				}
+			case *ssa.Call:
+				if b, ok := x.Call.Value.(*ssa.Builtin); ok && b.Name() == "append" && len(x.Call.Args) > 0 {
+					return from(x.Call.Args[0])
+				}
+			case *ssa.UnOp:
+				// a load from a local the parameter was stored into
+				if a, ok := x.X.(*ssa.Alloc); ok && x.Op == token.MUL {
+					for _, ref := range *a.Referrers() {
+						if st, isSt := ref.(*ssa.Store); isSt && st.Addr == a {
+							if s := from(st.Val); s != "" {
+								return s
+							}
+						}
+					}
+				}
+			}
+			return ""
+		}
+		for _, b := range f.Blocks {
+			for _, in := range b.Instrs {
+				ret, ok := in.(*ssa.Return)
+				if !ok || len(ret.Results) == 0 || bad != "" {
+					continue
+				}
+				if cst, isC := ret.Results[0].(*ssa.Const); isC && cst.IsNil() {
+					continue
+				}
+				if p := from(ret.Results[0]); p != "" {
+					bad = fmt.Sprintf("the value returned at %s is (derived from) the parameter %s: %s", c.pos(ret.Pos()), p, sp.why)
+				}
+			}
+		}
+		reportFold(r, c, "W-FRESHRESULT", key, f.Pos(), bad)
 	}
 }
